@@ -11,10 +11,10 @@ def configs(tier):
         ('names differing only in the case of their PascalCase form {foobar,foo_bar,x}', dict(fam_kw=dict(shape='two_parents', names=('foobar', 'foo_bar', 'x')))),
         ('three branches, one nested deeper, {x,y,item}', dict(fam_kw=dict(shape='three_branches', names=('x', 'y', 'item')))),
         ('same name below same-named parents, optional text-only siblings, {a,x,d}', dict(fam_kw=dict(shape='deep_pair', names=('x', 'd', 'a'), text_siblings=True))),
-        ('two documents, rendered after each: new names and new duplicates in the second {b,c,d}', dict(fam_kw=dict(shape='wide', names=('b', 'c', 'd'), docs=2), render_between=True)),
+        ('two documents, rendered after each: new names and new duplicates in the second {b,c,d}', dict(fam_kw=dict(shape='wide', names=('b', 'c'), docs=2), render_between=True)),
         ('optional + repeated child whose name recurs elsewhere {b,c,d}', dict(fam_kw=dict(shape='rep_opt', names=('b', 'c', 'd')))),
         ('names whose PascalCase form is not a fixpoint of the conversion {eMail,a-b,s:x,xId}', dict(fam_kw=dict(shape='two_parents', names=('eMail', 'a-b', 's:x', 'xId')))),
-        ('two documents merged, wide, {a,b,c}', dict(fam_kw=dict(shape='wide', names=('a', 'b', 'c'), docs=2))),
+        ('two documents merged, wide, {a,b}', dict(fam_kw=dict(shape='wide', names=('a', 'b'), docs=2))),
     ]
     if tier == 'quick': return q
     return q + [
